@@ -263,10 +263,18 @@ func (e *Env) RunBuild(o BuildOpts) *Obs {
 	return obs
 }
 
-func (e *Env) RunTaint(patterns []string) *grog.Result {
-	res := e.M.Run(append([]string{"taint"}, patterns...), grog.RunOpts{Build: "taint"})
-	e.Logf("grog taint %v -> exit %d", patterns, res.Exit)
+func (e *Env) RunTaint(patterns []string) *grog.Result { return e.RunTaintFrom("", patterns) }
+
+// RunTaintFrom runs grog taint from a package directory (relative patterns resolve against it).
+func (e *Env) RunTaintFrom(cwd string, patterns []string) *grog.Result {
+	res := e.M.Run(append([]string{"taint"}, patterns...), grog.RunOpts{Build: "taint", Cwd: cwd})
+	e.Logf("grog taint %v (cwd=%q) -> exit %d: %s", patterns, cwd, res.Exit, lastLine(res.Stdout+res.Stderr))
 	return res
+}
+
+func lastLine(s string) string {
+	ls := strings.Split(strings.TrimSpace(s), "\n")
+	return ls[len(ls)-1]
 }
 
 func keys(m map[string]int) []string {
